@@ -33,6 +33,7 @@ pub enum Kind {
     CipherToShares,
     SharesToCipher,
     RoundTrip,
+    RevealSecret,
 }
 
 impl Kind {
@@ -46,10 +47,11 @@ impl Kind {
             Kind::CipherToShares => "cipher-to-shares",
             Kind::SharesToCipher => "shares-to-cipher",
             Kind::RoundTrip => "round-trip",
+            Kind::RevealSecret => "reveal-secret-key",
         }
     }
     pub fn from_name(s: &str) -> Option<Kind> {
-        [Kind::PublicKey, Kind::RelinKeys, Kind::Decrypt, Kind::KeySwitch, Kind::PublicKeySwitch, Kind::CipherToShares, Kind::SharesToCipher, Kind::RoundTrip]
+        [Kind::PublicKey, Kind::RelinKeys, Kind::Decrypt, Kind::KeySwitch, Kind::PublicKeySwitch, Kind::CipherToShares, Kind::SharesToCipher, Kind::RoundTrip, Kind::RevealSecret]
             .into_iter()
             .find(|k| k.name() == s)
     }
@@ -193,6 +195,7 @@ impl<'a> SessionIo for S2cIo<'a> {
 one_round_io!(KsIo, KeySwitchProtocol<'a>);
 one_round_io!(DecIo, DecryptionProtocol<'a>);
 one_round_io!(PksIo, PublicKeySwitchProtocol<'a>);
+one_round_io!(RevIo, SecretKeyRevelationProtocol<'a>);
 
 struct RelinIo<'a> {
     protos: Vec<Option<RelinKeysGenerationProtocol<'a>>>,
@@ -340,6 +343,13 @@ impl<'e> Env<'e> {
             }
         }
     }
+    fn product(a: &Msg, b: &Msg, t: u64) -> Msg {
+        match (a, b) {
+            (Msg::Slots(x), Msg::Slots(y)) => Msg::Slots(x.iter().zip(y.iter()).map(|(&p, &q)| ((p as u128 * q as u128) % t as u128) as u64).collect()),
+            (Msg::Complex(x), Msg::Complex(y)) => Msg::Complex(x.iter().zip(y.iter()).map(|(p, q)| p * q).collect()),
+            _ => unreachable!(),
+        }
+    }
     fn square(m: &Msg, t: u64) -> Msg {
         match m {
             Msg::Slots(v) => Msg::Slots(v.iter().map(|&x| ((x as u128 * x as u128) % t as u128) as u64).collect()),
@@ -477,7 +487,7 @@ fn run_inner(scn: &Scn, res: &mut ScnResult) -> Result<(), String> {
     let sks: Vec<SecretKey> = parties.iter().map(|p| p.secret_key().clone()).collect();
     let s = add_keys(&ctx0, &sks);
     let dec_s = Decryptor::new(ctx0.clone(), s.clone());
-    let ckks_tol = 0.05;
+    let ckks_tol = 0.5;
 
     let mut pk: Option<PublicKey> = None;
     let mut rlk: Option<RelinKeys> = None;
@@ -498,16 +508,30 @@ fn run_inner(scn: &Scn, res: &mut ScnResult) -> Result<(), String> {
         let nclass = if n <= 2 { "n2" } else if n <= 4 { "n3-4" } else { "n5-6" };
 
         // everything except key generation works on a ciphertext under the collective key
-        let need_cipher = !matches!(kind, Kind::PublicKey | Kind::RelinKeys | Kind::SharesToCipher);
+        let need_cipher = !matches!(kind, Kind::PublicKey | Kind::RelinKeys | Kind::SharesToCipher | Kind::RevealSecret);
         let mut msg = None;
         let mut cipher = None;
         if need_cipher {
             let Some(pk) = &pk else { return Err("session list needs a public key first".into()) };
             let m = env.fresh_msg(&mut mrng);
             let enc = Encryptor::new(ctx0.clone()).set_public_key(pk.clone());
+            let mut m = m;
             let mut c = enc.encrypt_new(&env.encode(&m));
+            if scn.preps.get(idx).copied().unwrap_or(0) >= 100 {
+                if let Some(rk) = &rlk {
+                    // an evaluated ciphertext: product of two encryptions, relinearized with the *collective* key
+                    let m2 = env.fresh_msg(&mut mrng);
+                    let c2 = enc.encrypt_new(&env.encode(&m2));
+                    let prod = catch_res(|| env.eval.relinearize_new(&env.eval.multiply_new(&c, &c2), rk));
+                    if let Ok(p) = prod {
+                        c = p;
+                        m = Env::product(&m, &m2, env.t);
+                        res.count("probe.session_on_product_relinearized_with_collective_key", 1);
+                    }
+                }
+            }
             // optionally work below the first level (BGV then carries a correction factor != 1)
-            for _ in 0..scn.preps.get(idx).copied().unwrap_or(0) {
+            for _ in 0..(scn.preps.get(idx).copied().unwrap_or(0) % 100) {
                 let has_next = ctx0.get_context_data(c.parms_id()).and_then(|cd| cd.next_context_data()).is_some();
                 if !has_next {
                     break;
@@ -723,6 +747,27 @@ fn run_inner(scn: &Scn, res: &mut ScnResult) -> Result<(), String> {
                 }
                 session_orders = out.history.clone();
             }
+            Kind::RevealSecret => {
+                let protos: Vec<_> = parties.iter().map(|p| Some(p.reveal_secret_key())).collect();
+                let mut io = RevIo { protos, n, _m: Default::default() };
+                let out = net::drive(n, &mut io, &plan, &order, frag_seed);
+                judge_net(res, kind, scheme, &out, faulty);
+                for i in 0..n {
+                    let p = io.protos[i].take().unwrap();
+                    let r = catch_res(|| p.finish());
+                    if let Some(k) = judge_finish(res, kind, scheme, i, &out, r) {
+                        if k.data() != s.data() {
+                            let j = (0..s.data().len()).find(|&j| k.data()[j] != s.data()[j]).unwrap_or(0);
+                            res.found.push(Found {
+                                key: format!("{}/{}/not-the-sum-of-the-secret-keys", kind.name(), scheme),
+                                class: "not-the-sum-of-the-secret-keys".into(),
+                                detail: format!("party {} reconstructed a secret key that differs from the sum of all parties' keys (first at word {})", i, j),
+                            });
+                        }
+                    }
+                }
+                session_orders = out.history.clone();
+            }
             Kind::CipherToShares | Kind::RoundTrip => {
                 if scn.spec.scheme == CKKS {
                     res.count(&format!("not_accepted.{}.{}", kind.name(), scheme), 1);
@@ -893,11 +938,14 @@ fn gen_scn(rng: &mut Prng, run_seed: u64, max_n: usize) -> Option<Scn> {
         sessions.push(Kind::RelinKeys);
     }
     let spec = gen_spec(rng, with_relin)?;
-    let pool = [Kind::Decrypt, Kind::KeySwitch, Kind::PublicKeySwitch, Kind::CipherToShares, Kind::SharesToCipher, Kind::RoundTrip];
+    let pool = [Kind::Decrypt, Kind::Decrypt, Kind::KeySwitch, Kind::KeySwitch, Kind::PublicKeySwitch, Kind::PublicKeySwitch, Kind::CipherToShares, Kind::CipherToShares, Kind::SharesToCipher, Kind::SharesToCipher, Kind::RoundTrip, Kind::RoundTrip, Kind::RevealSecret];
     for _ in 0..rng.range(1, 3) {
         sessions.push(*rng.pick(&pool));
     }
-    let preps: Vec<usize> = sessions.iter().map(|_| if rng.chance(1, 3) { rng.range(1, 2) } else { 0 }).collect();
+    let preps: Vec<usize> = sessions
+        .iter()
+        .map(|_| (if rng.chance(1, 3) { rng.range(1, 2) } else { 0 }) + if with_relin && rng.chance(1, 3) { 100 } else { 0 })
+        .collect();
     let finishers: Vec<Vec<usize>> = sessions
         .iter()
         .map(|k| {
